@@ -6,6 +6,7 @@ package c04
 
 import (
 	"fmt"
+	"strings"
 
 	"verifharness/c01"
 	"verifharness/common"
@@ -50,7 +51,28 @@ func handshakes() []c01.Case {
 func Run(r *common.Run) error {
 	e := &c01.Emitter{R: r, Prop: "C04"}
 	if r.Replay != "" {
-		return c01.Replay(e)
+		lines, err := common.ReplayLines(r.Replay)
+		if err != nil {
+			return err
+		}
+		for _, l := range lines {
+			f := strings.Fields(l)
+			if len(f) > 0 && f[0] == "C04" {
+				f = f[1:]
+			}
+			if len(f) > 0 && f[0] == "hs" {
+				if err := replayHS(r, f); err != nil {
+					return err
+				}
+				continue
+			}
+			cs, err := c01.ParseLine(l)
+			if err != nil {
+				return err
+			}
+			e.Do(cs, "replay")
+		}
+		return nil
 	}
 	for _, cs := range c01.Witnesses() {
 		e.Do(cs, "corpus")
